@@ -1,5 +1,6 @@
 """pi for responses (C10) + batch judging by spec/GqlResponse.tla."""
 import concurrent.futures as cf
+import asyncio
 import json
 import math
 import os
@@ -32,7 +33,7 @@ def project(text, outcome, call, null_paths=(), ext_expect=None):
     try:
         res = call()
         resp = res.response()
-    except Exception as e:
+    except (Exception, asyncio.CancelledError) as e:      # CancelledError is a BaseException: an execution that never finishes
         case["raised"] = type(e).__name__
         return case
     try:
